@@ -1173,6 +1173,19 @@ def r13_1(ctx, repo):
             if not bad:
                 ctx.ok(rule, repo.loc(fn, cls, fn.name), construct,
                        'all slice updates are shape-consistent', engine=ENG)
+    _r16_6_core(ctx, repo, rule)
+    ctx.floor(rule, 20)
+
+
+def r16_6(ctx, repo):
+    """Independent random draws are not broadcast along a missing axis."""
+    _r16_6_core(ctx, repo, 'R16.6')
+    ctx.floor('R16.6', 1)
+
+
+def _r16_6_core(ctx, repo, rule):
+    cls = 'PopulationFilterLogPosterior'
+    cfgA = FILTER_CONFIGS['all hierarchical']
     # (4) initial points: every block is drawn per initial point
     fn = repo.method(cls, 'sample_initial_parameters')
     env = _filter_env(cfgA, True)
@@ -1189,4 +1202,3 @@ def r13_1(ctx, repo):
         ctx.ok(rule, repo.loc(fn, cls, fn.name), construct,
                'noise realisations are drawn with one row per initial point',
                engine=ENG)
-    ctx.floor(rule, 20)
